@@ -1,17 +1,25 @@
 package c13
 
 // Regenerated facts for C13: the table of blocking operations of every background loop, read from the CURRENT
-// source of /repo/block and /repo/node/full.go with go/parser (no type information; heuristics are listed in
-// notes/C13.md).  A Go build overlay (GOFLAGS -overlay=..., used for mutation tests) is honoured.
+// source of /repo with FULL TYPE INFORMATION (go/types): `go list -deps -export` gives the packages of the repository
+// reachable from block and node (type-checked here from source) and the export data of everything else.  Calls are
+// resolved by object identity and followed to unlimited depth (memoised summaries); everything that could not be
+// followed is emitted as a fact (`callsNotFollowed`) which Spec.C13 requires to be empty.  Rules: notes/C13.md.
+// A Go build overlay (GOFLAGS -overlay=... / VERIF_OVERLAY, used for mutation tests) is honoured.
 
 import (
+	"bytes"
 	"encoding/json"
 	"fmt"
 	"go/ast"
+	"go/importer"
 	"go/parser"
 	"go/printer"
 	"go/token"
+	"go/types"
+	"io"
 	"os"
+	"os/exec"
 	"path/filepath"
 	"reflect"
 	"runtime"
@@ -26,35 +34,32 @@ import (
 
 func init() { hx.RegisterFacts("C13", Facts) }
 
+const repoMod = "github.com/evstack/ev-node"
+
 // Point is one blocking operation.
 type Point struct {
-	Kind  int // 0 ctxSelect, 1 sleep, 2 send, 3 recv, 4 errSend
+	Kind  int // 0 ctxSelect, 1 sleep, 2 send, 3 recv, 4 errSend, 5 lock, 6 join
 	Chan  int
-	Flag  bool // guarded (send/recv) or boundedByCfg (sleep)
+	Flag  bool // guarded (send/recv), boundedByCfg (sleep), critical sections non-blocking (lock), joined bodies inlined (join)
+	Poll  bool // clause of a select that has a `default`: never parks the goroutine
 	Fn    string
+	Pos   string // file:line:col (identity for de-duplication)
 	Line  int
 	Src   string
-	CName string
+	CName string // channel / mutex name
 }
 
 var loopCodes = map[string]int{
-	"AggregationLoop": 0, "Start": 1, "HeaderSubmissionLoop": 2, "DataSubmissionLoop": 3, "DAIncluderLoop": 4,
-	"RetrieveLoop": 5, "HeaderStoreRetrieveLoop": 6, "DataStoreRetrieveLoop": 7, "SyncLoop": 8,
+	"Manager.AggregationLoop": 0, "Reaper.Start": 1, "Manager.HeaderSubmissionLoop": 2, "Manager.DataSubmissionLoop": 3,
+	"Manager.DAIncluderLoop": 4, "Manager.RetrieveLoop": 5, "Manager.HeaderStoreRetrieveLoop": 6,
+	"Manager.DataStoreRetrieveLoop": 7, "Manager.SyncLoop": 8,
 }
 var chanCodes = map[string]int{
 	"errCh": 0, "headerInCh": 1, "dataInCh": 2, "headerStoreCh": 3, "dataStoreCh": 4, "retrieveCh": 5,
-	"daIncluderCh": 6, "txNotifyCh": 7, "<timer>": 8,
+	"daIncluderCh": 6, "txNotifyCh": 7, "<timer>": 8, "<never>": 9,
 }
 
-type analysis struct {
-	fset     *token.FileSet
-	funcs    map[string][]*ast.FuncDecl // by name
-	alias    map[string]string          // func-typed field -> method assigned to it
-	locals   map[string]int
-	headed   bool
-	terminal bool
-	notes    []string
-}
+// ------------------------------------------------------------------------------------------------ loading
 
 func repoRoot() string {
 	if d := os.Getenv("VERIF_REPO"); d != "" {
@@ -72,8 +77,7 @@ func repoRoot() string {
 	return "/repo"
 }
 
-func overlayMap() map[string]string {
-	out := map[string]string{}
+func overlayPath() string {
 	path := os.Getenv("VERIF_OVERLAY")
 	if path == "" {
 		for _, f := range strings.Fields(os.Getenv("GOFLAGS")) {
@@ -82,6 +86,12 @@ func overlayMap() map[string]string {
 			}
 		}
 	}
+	return path
+}
+
+func overlayMap() map[string]string {
+	out := map[string]string{}
+	path := overlayPath()
 	if path == "" {
 		return out
 	}
@@ -98,54 +108,272 @@ func overlayMap() map[string]string {
 	return out
 }
 
-func parseDir(fset *token.FileSet, dir string, ov map[string]string) ([]*ast.File, error) {
-	ents, err := os.ReadDir(dir)
-	if err != nil {
-		return nil, err
-	}
-	names := map[string]bool{}
-	for _, e := range ents {
-		names[filepath.Join(dir, e.Name())] = true
-	}
-	for k := range ov { // files that exist only in the overlay
-		if filepath.Dir(k) == dir {
-			names[k] = true
-		}
-	}
-	var sorted []string
-	for n := range names {
-		sorted = append(sorted, n)
-	}
-	sort.Strings(sorted)
-	var files []*ast.File
-	for _, n := range sorted {
-		base := filepath.Base(n)
-		if !strings.HasSuffix(base, ".go") || strings.HasSuffix(base, "_test.go") || strings.HasPrefix(base, "verif_hooks") {
-			continue
-		}
-		src := n
-		if r, ok := ov[n]; ok {
-			if r == "" {
-				continue
-			}
-			src = r
-		}
-		b, err := os.ReadFile(src)
-		if err != nil {
-			return nil, err
-		}
-		f, err := parser.ParseFile(fset, n, b, parser.SkipObjectResolution)
-		if err != nil {
-			return nil, err
-		}
-		files = append(files, f)
-	}
-	return files, nil
+type listPkg struct {
+	ImportPath string
+	Dir        string
+	GoFiles    []string
+	Export     string
+	Standard   bool
+	Module     *struct{ Path string }
+	Error      *struct{ Err string }
+	ImportMap  map[string]string
 }
 
-func (a *analysis) text(n ast.Node) string {
+type pkgInfo struct {
+	path  string
+	dir   string
+	files []*ast.File
+	info  *types.Info
+	tpkg  *types.Package
+}
+
+type declRef struct {
+	fd  *ast.FuncDecl
+	pkg *pkgInfo
+}
+
+type world struct {
+	fset    *token.FileSet
+	root    string
+	pkgs    map[string]*pkgInfo // packages of the repository, type-checked from source
+	order   []string
+	decls   map[*types.Func]declRef
+	fieldAs map[*types.Var][]valRef // func-typed struct fields: every value assigned anywhere in the repository's packages
+	sites   map[*types.Func][]callSite // static call sites of every declared function of the repository
+	litSumm map[*ast.FuncLit][]Point
+	litProg map[*ast.FuncLit]bool
+
+	summ   map[fkey][]Point
+	inprog map[fkey]bool
+
+	notFollowed map[[2]string]bool
+	boundary    map[[3]string]bool
+	external    map[string]bool
+	goStmts     map[string]bool
+	notes       []string
+	headed      bool
+	terminal    bool
+	termSeen    map[*ast.FuncDecl]bool
+	loopSeen    map[ast.Node]bool
+
+	mutexFree map[string]bool // assumption during the fixpoint
+	mutexDoc  map[string][]string
+}
+
+type valRef struct {
+	e   ast.Expr
+	pkg *pkgInfo
+	fd  *ast.FuncDecl // enclosing declaration (nil at package level)
+}
+
+type callSite struct {
+	call *ast.CallExpr
+	pkg  *pkgInfo
+	fd   *ast.FuncDecl
+}
+
+// target of a func value: a declared function of the repository, or a function literal that lives in another declaration
+type target struct {
+	fn  *types.Func
+	lit *ast.FuncLit
+	pkg *pkgInfo
+	fd  *ast.FuncDecl
+}
+
+type repoImporter struct {
+	w     *world
+	gc    types.ImporterFrom
+	byDir map[string]*listPkg
+}
+
+func (ri *repoImporter) Import(path string) (*types.Package, error) { return ri.ImportFrom(path, "", 0) }
+func (ri *repoImporter) ImportFrom(path, dir string, mode types.ImportMode) (*types.Package, error) {
+	if lp := ri.byDir[dir]; lp != nil {
+		if m, ok := lp.ImportMap[path]; ok {
+			path = m
+		}
+	}
+	if p, ok := ri.w.pkgs[path]; ok {
+		return p.tpkg, nil
+	}
+	return ri.gc.ImportFrom(path, dir, mode)
+}
+
+func load() (*world, error) {
+	root := repoRoot()
+	ov := overlayMap()
+	args := []string{"list", "-e", "-deps", "-export", "-json=ImportPath,Dir,GoFiles,Export,Standard,Module,Error,ImportMap", "./block", "./node"}
+	cmd := exec.Command("go", args...)
+	cmd.Dir = root
+	goflags := "-mod=readonly" // never let the go command rewrite /repo/go.mod
+	if p := overlayPath(); p != "" {
+		goflags += " -overlay=" + p
+	}
+	var env []string
+	for _, kv := range os.Environ() {
+		if strings.HasPrefix(kv, "GOFLAGS=") || strings.HasPrefix(kv, "GOWORK=") {
+			continue
+		}
+		env = append(env, kv)
+	}
+	cmd.Env = append(env, "GOFLAGS="+goflags, "GOWORK=off")
+	var stderr bytes.Buffer
+	cmd.Stderr = &stderr
+	out, err := cmd.Output()
+	if err != nil {
+		return nil, fmt.Errorf("go list in %s: %v: %s", root, err, stderr.String())
+	}
+	var pkgs []*listPkg
+	dec := json.NewDecoder(bytes.NewReader(out))
+	for {
+		var p listPkg
+		if err := dec.Decode(&p); err == io.EOF {
+			break
+		} else if err != nil {
+			return nil, fmt.Errorf("go list output: %v", err)
+		}
+		if p.Error != nil {
+			return nil, fmt.Errorf("go list: %s: %s", p.ImportPath, p.Error.Err)
+		}
+		pkgs = append(pkgs, &p)
+	}
+	w := &world{fset: token.NewFileSet(), root: root, pkgs: map[string]*pkgInfo{}, decls: map[*types.Func]declRef{},
+		fieldAs: map[*types.Var][]valRef{}, summ: map[fkey][]Point{}, inprog: map[fkey]bool{},
+		sites: map[*types.Func][]callSite{}, litSumm: map[*ast.FuncLit][]Point{}, litProg: map[*ast.FuncLit]bool{},
+		notFollowed: map[[2]string]bool{}, boundary: map[[3]string]bool{}, external: map[string]bool{}, goStmts: map[string]bool{},
+		headed: true, terminal: true, termSeen: map[*ast.FuncDecl]bool{}, loopSeen: map[ast.Node]bool{},
+		mutexFree: map[string]bool{}, mutexDoc: map[string][]string{}}
+	exports := map[string]string{}
+	byDir := map[string]*listPkg{}
+	for _, p := range pkgs {
+		exports[p.ImportPath] = p.Export
+		byDir[p.Dir] = p
+	}
+	lookup := func(path string) (io.ReadCloser, error) {
+		f := exports[path]
+		if f == "" {
+			return nil, fmt.Errorf("no export data for %q", path)
+		}
+		return os.Open(f)
+	}
+	ri := &repoImporter{w: w, gc: importer.ForCompiler(w.fset, "gc", lookup).(types.ImporterFrom), byDir: byDir}
+	for _, p := range pkgs { // dependency order
+		if p.Module == nil || !(p.Module.Path == repoMod || strings.HasPrefix(p.Module.Path, repoMod+"/")) {
+			continue
+		}
+		pi := &pkgInfo{path: p.ImportPath, dir: p.Dir}
+		for _, gf := range p.GoFiles {
+			full := filepath.Join(p.Dir, gf)
+			if strings.HasPrefix(gf, "verif_hooks") {
+				continue
+			}
+			src := full
+			if r, ok := ov[full]; ok {
+				if r == "" {
+					continue
+				}
+				src = r
+			}
+			b, err := os.ReadFile(src)
+			if err != nil {
+				return nil, err
+			}
+			f, err := parser.ParseFile(w.fset, full, b, parser.SkipObjectResolution)
+			if err != nil {
+				return nil, err
+			}
+			pi.files = append(pi.files, f)
+		}
+		pi.info = &types.Info{Types: map[ast.Expr]types.TypeAndValue{}, Defs: map[*ast.Ident]types.Object{}, Uses: map[*ast.Ident]types.Object{},
+			Selections: map[*ast.SelectorExpr]*types.Selection{}, Instances: map[*ast.Ident]types.Instance{}}
+		var terrs []string
+		conf := types.Config{Importer: ri, Error: func(err error) { terrs = append(terrs, err.Error()) }}
+		tp, _ := conf.Check(p.ImportPath, w.fset, pi.files, pi.info)
+		if len(terrs) > 0 {
+			return nil, fmt.Errorf("type-checking %s: %s", p.ImportPath, strings.Join(terrs[:min(len(terrs), 3)], "; "))
+		}
+		pi.tpkg = tp
+		w.pkgs[p.ImportPath] = pi
+		w.order = append(w.order, p.ImportPath)
+		for _, f := range pi.files {
+			for _, d := range f.Decls {
+				if fd, ok := d.(*ast.FuncDecl); ok {
+					if fn, ok := pi.info.Defs[fd.Name].(*types.Func); ok {
+						w.decls[fn] = declRef{fd, pi}
+					}
+				}
+			}
+		}
+	}
+	if w.pkgs[repoMod+"/block"] == nil || w.pkgs[repoMod+"/node"] == nil {
+		return nil, fmt.Errorf("packages block / node of %s not loaded from %s", repoMod, root)
+	}
+	// every value assigned to a func-typed struct field, and every static call site, anywhere in the repository's packages
+	for _, path := range w.order {
+		pi := w.pkgs[path]
+		for _, f := range pi.files {
+			for _, d := range f.Decls {
+				fd, _ := d.(*ast.FuncDecl)
+				ast.Inspect(d, func(n ast.Node) bool {
+					switch x := n.(type) {
+					case *ast.AssignStmt:
+						if len(x.Lhs) == len(x.Rhs) {
+							for i, l := range x.Lhs {
+								if s, ok := l.(*ast.SelectorExpr); ok {
+									if sel := pi.info.Selections[s]; sel != nil && sel.Kind() == types.FieldVal {
+										if v, ok := sel.Obj().(*types.Var); ok && isFuncType(v.Type()) {
+											w.fieldAs[v.Origin()] = append(w.fieldAs[v.Origin()], valRef{x.Rhs[i], pi, fd})
+										}
+									}
+								}
+							}
+						}
+					case *ast.KeyValueExpr:
+						if id, ok := x.Key.(*ast.Ident); ok {
+							if v, ok := pi.info.Uses[id].(*types.Var); ok && v.IsField() && isFuncType(v.Type()) {
+								w.fieldAs[v.Origin()] = append(w.fieldAs[v.Origin()], valRef{x.Value, pi, fd})
+							}
+						}
+					case *ast.CallExpr:
+						if fn, ok := w.staticCallee(pi.info, x.Fun).(*types.Func); ok && isRepoPkg(fn.Pkg()) {
+							w.sites[fn.Origin()] = append(w.sites[fn.Origin()], callSite{x, pi, fd})
+						}
+					}
+					return true
+				})
+			}
+		}
+	}
+	return w, nil
+}
+
+// ------------------------------------------------------------------------------------------------ helpers
+
+func isFuncType(t types.Type) bool {
+	if t == nil {
+		return false
+	}
+	_, ok := t.Underlying().(*types.Signature)
+	return ok
+}
+
+func isRepoPkg(p *types.Package) bool {
+	return p != nil && (p.Path() == repoMod || strings.HasPrefix(p.Path(), repoMod+"/"))
+}
+
+func unparen(e ast.Expr) ast.Expr {
+	for {
+		p, ok := e.(*ast.ParenExpr)
+		if !ok {
+			return e
+		}
+		e = p.X
+	}
+}
+
+func (w *world) text(n ast.Node) string {
 	var sb strings.Builder
-	_ = printer.Fprint(&sb, a.fset, n)
+	_ = printer.Fprint(&sb, w.fset, n)
 	s := strings.Join(strings.Fields(sb.String()), " ")
 	if len(s) > 70 {
 		s = s[:70] + "…"
@@ -153,17 +381,10 @@ func (a *analysis) text(n ast.Node) string {
 	return s
 }
 
-func isCtxDone(e ast.Expr) bool {
-	u, ok := e.(*ast.UnaryExpr)
-	if !ok || u.Op != token.ARROW {
-		return false
-	}
-	c, ok := u.X.(*ast.CallExpr)
-	if !ok {
-		return false
-	}
-	s, ok := c.Fun.(*ast.SelectorExpr)
-	return ok && s.Sel.Name == "Done"
+func (w *world) rel(pos token.Pos) string {
+	p := w.fset.Position(pos)
+	f := strings.TrimPrefix(p.Filename, w.root+"/")
+	return fmt.Sprintf("%s:%d", f, p.Line)
 }
 
 // chanName gives a stable name to a channel expression.
@@ -180,23 +401,14 @@ func chanName(e ast.Expr) string {
 		if s, ok := x.Fun.(*ast.SelectorExpr); ok && (s.Sel.Name == "After" || s.Sel.Name == "Tick") {
 			return "<timer>"
 		}
+		if s, ok := x.Fun.(*ast.SelectorExpr); ok && s.Sel.Name == "Done" {
+			return "<foreign-ctx>"
+		}
 		return "<call>"
 	case *ast.ParenExpr:
 		return chanName(x.X)
 	}
 	return "<expr>"
-}
-
-func (a *analysis) chanCode(name string) int {
-	if c, ok := chanCodes[name]; ok {
-		return c
-	}
-	if c, ok := a.locals[name]; ok {
-		return c
-	}
-	c := 100 + len(a.locals)
-	a.locals[name] = c
-	return c
 }
 
 // recvOf returns the received-from expression of a comm statement (nil if it is a send).
@@ -216,114 +428,589 @@ func recvOf(s ast.Stmt) *ast.UnaryExpr {
 	return nil
 }
 
-// boundedSleepArg: a sleep of a configured interval or a constant is bounded; a sleep of a local variable
-// (a duration computed from data such as the genesis time) is not.
-func boundedSleepArg(e ast.Expr) bool {
-	if _, ok := e.(*ast.Ident); ok {
-		return false
+func qualName(fn *types.Func) string {
+	if fn == nil {
+		return "?"
 	}
-	bounded := false
-	ast.Inspect(e, func(n ast.Node) bool {
-		switch x := n.(type) {
-		case *ast.SelectorExpr:
-			if x.Sel.Name == "config" || x.Sel.Name == "Config" || x.Sel.Name == "interval" {
-				bounded = true
+	sig, _ := fn.Type().(*types.Signature)
+	pk := ""
+	if fn.Pkg() != nil {
+		pk = strings.TrimPrefix(fn.Pkg().Path(), repoMod+"/")
+	}
+	if sig != nil && sig.Recv() != nil {
+		t := sig.Recv().Type()
+		if p, ok := t.(*types.Pointer); ok {
+			t = p.Elem()
+		}
+		if n, ok := t.(*types.Named); ok {
+			return pk + "." + n.Obj().Name() + "." + fn.Name()
+		}
+	}
+	return pk + "." + fn.Name()
+}
+
+func fullName(fn *types.Func) string { // e.g. (*sync.Mutex).Lock, time.Sleep
+	return fn.FullName()
+}
+
+// ------------------------------------------------------------------------------------------------ walking
+
+type fkey struct {
+	fn       *types.Func
+	mask     string // which context parameters carry a context derived from the node context
+	paramsOK bool   // func-typed parameters were validated at the call site
+}
+
+type frame struct {
+	pkg      *pkgInfo
+	fd       *ast.FuncDecl
+	encl     *types.Func
+	fnName   string
+	caller   string
+	body     ast.Node // body of the enclosing declaration (for assignments to locals)
+	params   map[types.Object]bool
+	derived  map[types.Object]bool
+	paramsOK bool
+}
+
+func isContext(t types.Type) bool {
+	if n, ok := t.(*types.Named); ok {
+		return n.Obj().Pkg() != nil && n.Obj().Pkg().Path() == "context" && n.Obj().Name() == "Context"
+	}
+	return false
+}
+
+var ctxDerivers = map[string]bool{
+	"context.WithCancel": true, "context.WithTimeout": true, "context.WithDeadline": true, "context.WithValue": true,
+	"context.WithCancelCause": true, "context.WithTimeoutCause": true, "context.WithDeadlineCause": true,
+	"golang.org/x/sync/errgroup.WithContext": true,
+}
+
+func (w *world) staticCallee(info *types.Info, e ast.Expr) types.Object {
+	switch f := unparen(e).(type) {
+	case *ast.Ident:
+		return info.Uses[f]
+	case *ast.SelectorExpr:
+		if sel := info.Selections[f]; sel != nil {
+			return sel.Obj()
+		}
+		return info.Uses[f.Sel]
+	case *ast.IndexExpr:
+		return w.staticCallee(info, f.X)
+	case *ast.IndexListExpr:
+		return w.staticCallee(info, f.X)
+	}
+	return nil
+}
+
+// derivedExpr: is e a context derived from the node context (under the current set of derived variables)?
+func (w *world) derivedExpr(fr *frame, e ast.Expr) bool {
+	switch x := unparen(e).(type) {
+	case *ast.Ident:
+		if o := fr.pkg.info.Uses[x]; o != nil {
+			return fr.derived[o]
+		}
+		if o := fr.pkg.info.Defs[x]; o != nil {
+			return fr.derived[o]
+		}
+	case *ast.CallExpr:
+		if fn, ok := w.staticCallee(fr.pkg.info, x.Fun).(*types.Func); ok && ctxDerivers[fn.FullName()] && len(x.Args) > 0 {
+			return w.derivedExpr(fr, x.Args[0])
+		}
+	}
+	return false
+}
+
+// computeDerived: a context variable is derived iff it is a derived parameter or a local, and EVERY value assigned to it is
+// `context.WithX(derived, …)` / `errgroup.WithContext(derived)` / a derived variable.
+func (w *world) computeDerived(fr *frame, body ast.Node, paramDerived map[types.Object]bool) {
+	info := fr.pkg.info
+	assigns := map[types.Object][]ast.Expr{}
+	obj := func(e ast.Expr) types.Object {
+		if id, ok := e.(*ast.Ident); ok {
+			if o := info.Defs[id]; o != nil {
+				return o
 			}
-		case *ast.BasicLit:
-			bounded = true
+			return info.Uses[id]
+		}
+		return nil
+	}
+	ast.Inspect(body, func(n ast.Node) bool {
+		switch x := n.(type) {
+		case *ast.AssignStmt:
+			for i, l := range x.Lhs {
+				o := obj(l)
+				if o == nil || !isContext(o.Type()) {
+					continue
+				}
+				if len(x.Rhs) == len(x.Lhs) {
+					assigns[o] = append(assigns[o], x.Rhs[i])
+				} else if len(x.Rhs) == 1 {
+					assigns[o] = append(assigns[o], x.Rhs[0])
+				}
+			}
+		case *ast.ValueSpec:
+			for i, nm := range x.Names {
+				o := info.Defs[nm]
+				if o == nil || !isContext(o.Type()) {
+					continue
+				}
+				if len(x.Values) == len(x.Names) {
+					assigns[o] = append(assigns[o], x.Values[i])
+				} else if len(x.Values) == 1 {
+					assigns[o] = append(assigns[o], x.Values[0])
+				} else {
+					assigns[o] = append(assigns[o], nil)
+				}
+			}
 		}
 		return true
 	})
-	return bounded
+	fr.derived = map[types.Object]bool{}
+	for o, d := range paramDerived {
+		if d {
+			fr.derived[o] = true
+		}
+	}
+	for changed := true; changed; {
+		changed = false
+		// a derived parameter that is re-assigned something foreign is no longer trusted
+		for o := range paramDerived {
+			if !fr.derived[o] {
+				continue
+			}
+			for _, r := range assigns[o] {
+				if r == nil || !w.derivedExpr(fr, r) {
+					delete(fr.derived, o)
+					changed = true
+					break
+				}
+			}
+		}
+		for o, rs := range assigns {
+			if _, isParam := paramDerived[o]; isParam || fr.derived[o] || len(rs) == 0 {
+				continue
+			}
+			all := true
+			for _, r := range rs {
+				if r == nil || !w.derivedExpr(fr, r) {
+					all = false
+				}
+			}
+			if all {
+				fr.derived[o] = true
+				changed = true
+			}
+		}
+	}
 }
 
-// walk lists the blocking points of a function body in source order, inlining callees of the same package.
-func (a *analysis) walk(fd *ast.FuncDecl, depth int, seen map[string]bool) []Point {
-	var pts []Point
-	if fd == nil || fd.Body == nil {
-		return pts
+func (w *world) isCtxDone(fr *frame, e ast.Expr) bool {
+	u, ok := e.(*ast.UnaryExpr)
+	if !ok || u.Op != token.ARROW {
+		return false
 	}
-	fname := fd.Name.Name
-	recvName, recvType := "", ""
-	if fd.Recv != nil && len(fd.Recv.List) == 1 {
-		if len(fd.Recv.List[0].Names) == 1 {
-			recvName = fd.Recv.List[0].Names[0].Name
-		}
-		t := fd.Recv.List[0].Type
-		if s, ok := t.(*ast.StarExpr); ok {
-			t = s.X
-		}
-		if id, ok := t.(*ast.Ident); ok {
-			recvType = id.Name
-		}
+	c, ok := u.X.(*ast.CallExpr)
+	if !ok {
+		return false
 	}
-	skip := map[ast.Node]bool{}
-	add := func(n ast.Node, kind int, cname string, flag bool) {
-		p := Point{Kind: kind, Flag: flag, Fn: fname, Line: a.fset.Position(n.Pos()).Line, Src: a.text(n), CName: cname}
-		if kind == 2 || kind == 3 {
-			p.Chan = a.chanCode(cname)
-		}
-		pts = append(pts, p)
+	s, ok := c.Fun.(*ast.SelectorExpr)
+	if !ok || s.Sel.Name != "Done" || len(c.Args) != 0 {
+		return false
 	}
-	// loops: every `for` without a condition that contains a blocking point must contain a ctx check
-	ast.Inspect(fd.Body, func(n ast.Node) bool {
-		fs, ok := n.(*ast.ForStmt)
-		if !ok || fs.Cond != nil {
-			return true
-		}
-		blocking, ctxCheck := false, false
-		noPark := map[ast.Node]bool{} // comm statements of a select that has a `default`: they never park the goroutine
-		ast.Inspect(fs.Body, func(k ast.Node) bool {
-			if k != nil && noPark[k] {
+	if t := fr.pkg.info.TypeOf(s.X); t == nil || !isContext(t) {
+		return false
+	}
+	return w.derivedExpr(fr, s.X)
+}
+
+// boundedSleep: (a) a constant, (b) a duration field of the node configuration (pkg/config), (c) min(...) of those.
+func (w *world) boundedSleep(fr *frame, e ast.Expr) bool {
+	e = unparen(e)
+	info := fr.pkg.info
+	if tv, ok := info.Types[e]; ok && tv.Value != nil {
+		return true
+	}
+	switch x := e.(type) {
+	case *ast.SelectorExpr:
+		for cur := ast.Expr(x); ; {
+			s, ok := cur.(*ast.SelectorExpr)
+			if !ok {
 				return false
 			}
-			switch x := k.(type) {
-			case *ast.SelectStmt:
-				hasDefault := false
-				for _, c := range x.Body.List {
-					if cc := c.(*ast.CommClause); cc.Comm == nil {
-						hasDefault = true
+			if sel := info.Selections[s]; sel != nil && sel.Kind() == types.FieldVal {
+				if v, ok := sel.Obj().(*types.Var); ok && v.Pkg() != nil && v.Pkg().Path() == repoMod+"/pkg/config" {
+					return true
+				}
+			}
+			cur = unparen(s.X)
+		}
+	case *ast.CallExpr:
+		if id, ok := x.Fun.(*ast.Ident); ok && id.Name == "min" {
+			if _, isBuiltin := info.Uses[id].(*types.Builtin); isBuiltin && len(x.Args) > 0 {
+				for _, a := range x.Args {
+					if !w.boundedSleep(fr, a) {
+						return false
 					}
 				}
-				if !hasDefault {
-					blocking = true
+				return true
+			}
+		}
+	}
+	return false
+}
+
+// mutexKey names the mutex a Lock/Unlock call is made on: "<pkg>.<Type>.<field>" for a field, else the variable.
+func (w *world) mutexKey(fr *frame, recv ast.Expr) string {
+	info := fr.pkg.info
+	switch x := unparen(recv).(type) {
+	case *ast.SelectorExpr:
+		if sel := info.Selections[x]; sel != nil {
+			t := sel.Recv()
+			if p, ok := t.(*types.Pointer); ok {
+				t = p.Elem()
+			}
+			tn := types.TypeString(t, func(p *types.Package) string { return strings.TrimPrefix(p.Path(), repoMod+"/") })
+			if i := strings.IndexByte(tn, '['); i > 0 { // generic instance
+				tn = tn[:i]
+			}
+			return tn + "." + x.Sel.Name
+		}
+		return "var " + chanName(x)
+	case *ast.Ident:
+		if o := info.Uses[x]; o != nil {
+			if o.Parent() == o.Pkg().Scope() {
+				return strings.TrimPrefix(o.Pkg().Path(), repoMod+"/") + "." + o.Name()
+			}
+			// a local / a receiver with an embedded mutex
+			t := o.Type()
+			if p, ok := t.(*types.Pointer); ok {
+				t = p.Elem()
+			}
+			if n, ok := t.(*types.Named); ok && n.Obj().Pkg() != nil && n.Obj().Pkg().Path() != "sync" {
+				return strings.TrimPrefix(n.Obj().Pkg().Path(), repoMod+"/") + "." + n.Obj().Name() + ".<embedded>"
+			}
+			return "local " + o.Name() + "@" + w.rel(o.Pos())
+		}
+	}
+	return "expr " + w.text(recv)
+}
+
+var lockFns = map[string]bool{"(*sync.Mutex).Lock": true, "(*sync.RWMutex).Lock": true, "(*sync.RWMutex).RLock": true}
+var unlockFns = map[string]bool{"(*sync.Mutex).Unlock": true, "(*sync.RWMutex).Unlock": true, "(*sync.RWMutex).RUnlock": true}
+var waitFns = map[string]bool{"(*sync.WaitGroup).Wait": true, "(*sync.Cond).Wait": true}
+
+const errgroupWait = "(*golang.org/x/sync/errgroup.Group).Wait"
+const errgroupGo = "(*golang.org/x/sync/errgroup.Group).Go"
+
+func (w *world) parking(p Point) bool {
+	if p.Poll {
+		return false
+	}
+	switch p.Kind {
+	case 5:
+		free, known := w.mutexFree[p.CName]
+		return known && !free
+	case 6:
+		return !p.Flag
+	}
+	return true
+}
+
+// frameForDecl: a frame for looking at expressions of another declaration (value flow of func values)
+func (w *world) frameForDecl(pi *pkgInfo, fd *ast.FuncDecl, caller string) *frame {
+	fr := &frame{pkg: pi, fd: fd, caller: caller, fnName: caller, derived: map[types.Object]bool{}, params: map[types.Object]bool{}}
+	if fd == nil {
+		return fr
+	}
+	fr.body = fd.Body
+	if fn, ok := pi.info.Defs[fd.Name].(*types.Func); ok {
+		fr.encl = fn
+		fr.fnName = qualName(fn)
+	}
+	if fd.Type.Params != nil {
+		for _, fl := range fd.Type.Params.List {
+			for _, nm := range fl.Names {
+				if o := pi.info.Defs[nm]; o != nil {
+					fr.params[o] = true
 				}
-				for _, c := range x.Body.List {
-					if cc := c.(*ast.CommClause); cc.Comm != nil {
-						if hasDefault {
-							// `select { case errCh <- err: default: }` and the like: a poll, not a blocking operation
-							// (a plain send/receive STATEMENT is still seen below)
-							noPark[cc.Comm] = true
-						}
-						if u := recvOf(cc.Comm); u != nil && isCtxDone(u) {
-							ctxCheck = true
-						}
+			}
+		}
+	}
+	return fr
+}
+
+func paramIndex(pi *pkgInfo, fd *ast.FuncDecl, v types.Object) int {
+	idx := 0
+	if fd == nil || fd.Type.Params == nil {
+		return -1
+	}
+	for _, fl := range fd.Type.Params.List {
+		if len(fl.Names) == 0 {
+			idx++
+			continue
+		}
+		for _, nm := range fl.Names {
+			if pi.info.Defs[nm] == v {
+				return idx
+			}
+			idx++
+		}
+	}
+	return -1
+}
+
+// resolveFuncValue: what a func-valued expression can be (value flow through locals, parameters - by the call sites of the
+// enclosing function -, struct fields - by every assignment in the loaded packages).  ok=false: origin unknown.
+// Func literals met in place (foreign=false) are walked by walkNode itself and need no target.
+func (w *world) resolveFuncValue(fr *frame, e ast.Expr, depth int, foreign bool) (targets []target, external bool, ok bool) {
+	info := fr.pkg.info
+	e = unparen(e)
+	if depth > 10 {
+		return nil, false, false
+	}
+	if tv, has := info.Types[e]; has && tv.IsNil() {
+		return nil, false, true
+	}
+	switch x := e.(type) {
+	case *ast.FuncLit:
+		if foreign {
+			return []target{{lit: x, pkg: fr.pkg, fd: fr.fd}}, false, true
+		}
+		return nil, false, true
+	case *ast.IndexExpr:
+		if _, isFn := w.staticCallee(info, x.X).(*types.Func); isFn {
+			return w.resolveFuncValue(fr, x.X, depth, foreign)
+		}
+		return nil, false, false
+	case *ast.IndexListExpr:
+		return w.resolveFuncValue(fr, x.X, depth, foreign)
+	case *ast.CallExpr:
+		// a func value returned by a function OUTSIDE the repository (context.WithCancel's cancel …) is external
+		if fn, isFn := w.staticCallee(info, x.Fun).(*types.Func); isFn && !isRepoPkg(fn.Pkg()) {
+			return nil, true, true
+		}
+		return nil, false, false
+	}
+	o := w.staticCallee(info, e)
+	switch v := o.(type) {
+	case *types.Func:
+		if sig, _ := v.Type().(*types.Signature); sig != nil && sig.Recv() != nil && types.IsInterface(sig.Recv().Type()) {
+			return nil, true, true // method value of an interface: boundary / external, recorded where it is referenced
+		}
+		if !isRepoPkg(v.Pkg()) {
+			return nil, true, true
+		}
+		return []target{{fn: v.Origin()}}, false, true
+	case *types.Var:
+		if v.IsField() {
+			if !isRepoPkg(v.Pkg()) {
+				return nil, true, true
+			}
+			as := w.fieldAs[v.Origin()]
+			if len(as) == 0 {
+				return nil, false, false
+			}
+			for _, a := range as {
+				t, ext, good := w.resolveFuncValue(w.frameForDecl(a.pkg, a.fd, fr.caller), a.e, depth+1, true)
+				if !good {
+					return nil, false, false
+				}
+				external = external || ext
+				targets = append(targets, t...)
+			}
+			return targets, external, true
+		}
+		if fr.params[v] {
+			if fr.paramsOK {
+				return nil, false, true // validated (and followed) at the call site that is being followed
+			}
+			idx := paramIndex(fr.pkg, fr.fd, v)
+			sites := w.sites[fr.encl]
+			if idx < 0 || fr.encl == nil || len(sites) == 0 {
+				return nil, false, false
+			}
+			for _, st := range sites {
+				if idx >= len(st.call.Args) {
+					return nil, false, false
+				}
+				t, ext, good := w.resolveFuncValue(w.frameForDecl(st.pkg, st.fd, fr.caller), st.call.Args[idx], depth+1, true)
+				if !good {
+					return nil, false, false
+				}
+				external = external || ext
+				targets = append(targets, t...)
+			}
+			return targets, external, true
+		}
+		if v.Parent() != nil && v.Pkg() != nil && v.Parent() == v.Pkg().Scope() {
+			return nil, false, false // package-level func variable
+		}
+		// local variable: every value assigned to it in the enclosing declaration
+		if fr.body == nil {
+			return nil, false, false
+		}
+		found, good := 0, true
+		check := func(l ast.Expr, r ast.Expr, tuple bool) {
+			id, isId := l.(*ast.Ident)
+			if !isId {
+				return
+			}
+			ob := info.Defs[id]
+			if ob == nil {
+				ob = info.Uses[id]
+			}
+			if ob != v {
+				return
+			}
+			found++
+			if r == nil {
+				return
+			}
+			t, ext, g := w.resolveFuncValue(fr, r, depth+1, foreign)
+			if !g {
+				good = false
+			}
+			_ = tuple
+			external = external || ext
+			targets = append(targets, t...)
+		}
+		ast.Inspect(fr.body, func(n ast.Node) bool {
+			switch x := n.(type) {
+			case *ast.AssignStmt:
+				if len(x.Lhs) == len(x.Rhs) {
+					for i := range x.Lhs {
+						check(x.Lhs[i], x.Rhs[i], false)
+					}
+				} else if len(x.Rhs) == 1 {
+					for i := range x.Lhs {
+						check(x.Lhs[i], x.Rhs[0], true) // a result of a call
 					}
 				}
-			case *ast.SendStmt:
-				if chanName(x.Chan) != "errCh" { // a terminal error send leaves the loop
-					blocking = true
-				}
-			case *ast.UnaryExpr:
-				if x.Op == token.ARROW {
-					blocking = true
-				}
-			case *ast.CallExpr:
-				if s, ok := x.Fun.(*ast.SelectorExpr); ok && s.Sel.Name == "Sleep" {
-					blocking = true
+			case *ast.ValueSpec:
+				for i, nm := range x.Names {
+					if info.Defs[nm] == v {
+						if len(x.Values) == len(x.Names) {
+							check(nm, x.Values[i], false)
+						} else if len(x.Values) == 1 {
+							check(nm, x.Values[0], true)
+						} else {
+							found++
+						}
+					}
 				}
 			}
 			return true
 		})
-		if blocking && !ctxCheck {
-			a.headed = false
-			a.notes = append(a.notes, fmt.Sprintf("%s:%d: unbounded for-loop with blocking operations and no <-ctx.Done() case", fname, a.fset.Position(fs.Pos()).Line))
+		if found == 0 || !good {
+			return nil, false, false
 		}
-		return true
-	})
-	// terminal error sends: `errCh <- …` must be followed by `return` (or end the function)
+		return targets, external, true
+	}
+	return nil, false, false
+}
+
+// followTarget returns the points of a resolved func value
+func (w *world) followTarget(t target, caller string) []Point {
+	if t.fn != nil {
+		return w.follow(t.fn, nil, false, caller)
+	}
+	if t.lit == nil {
+		return nil
+	}
+	if pts, ok := w.litSumm[t.lit]; ok {
+		return pts
+	}
+	if w.litProg[t.lit] {
+		return nil
+	}
+	w.litProg[t.lit] = true
+	fr := w.frameForDecl(t.pkg, t.fd, caller)
+	pts := w.walkNode(t.lit.Body, fr)
+	delete(w.litProg, t.lit)
+	w.litSumm[t.lit] = pts
+	return pts
+}
+
+func (w *world) recvTypeName(info *types.Info, sel *ast.SelectorExpr) string {
+	t := info.TypeOf(sel.X)
+	if t == nil {
+		return "?"
+	}
+	if p, ok := t.(*types.Pointer); ok {
+		t = p.Elem()
+	}
+	qf := func(p *types.Package) string { return strings.TrimPrefix(p.Path(), repoMod+"/") }
+	if n, ok := t.(*types.Named); ok { // without type arguments
+		if n.Obj().Pkg() == nil {
+			return n.Obj().Name()
+		}
+		return qf(n.Obj().Pkg()) + "." + n.Obj().Name()
+	}
+	return types.TypeString(t, qf)
+}
+
+// follow returns the blocking points of a declared function of the repository (memoised; a cycle contributes nothing new).
+func (w *world) follow(fn *types.Func, argDerived []bool, paramsOK bool, caller string) []Point {
+	d, ok := w.decls[fn]
+	if !ok || d.fd.Body == nil {
+		w.notFollowed[[2]string{caller, qualName(fn) + " (no body in the loaded packages)"}] = true
+		return nil
+	}
+	sig := fn.Type().(*types.Signature)
+	mask := make([]byte, 0, sig.Params().Len())
+	pd := map[types.Object]bool{}
+	params := map[types.Object]bool{}
+	idx := 0
+	if d.fd.Type.Params != nil {
+		for _, f := range d.fd.Type.Params.List {
+			names := f.Names
+			if len(names) == 0 {
+				idx++
+				continue
+			}
+			for _, nm := range names {
+				o := d.pkg.info.Defs[nm]
+				if o != nil {
+					params[o] = true
+					if isContext(o.Type()) {
+						dv := idx < len(argDerived) && argDerived[idx]
+						pd[o] = dv
+						if dv {
+							mask = append(mask, '1')
+						} else {
+							mask = append(mask, '0')
+						}
+					}
+				}
+				idx++
+			}
+		}
+	}
+	k := fkey{fn, string(mask), paramsOK}
+	if pts, done := w.summ[k]; done {
+		return pts
+	}
+	if w.inprog[k] {
+		return nil
+	}
+	w.inprog[k] = true
+	fr := &frame{pkg: d.pkg, fd: d.fd, encl: fn, fnName: qualName(fn), caller: qualName(fn), body: d.fd.Body, params: params, paramsOK: paramsOK}
+	w.computeDerived(fr, d.fd.Body, pd)
+	if !w.termSeen[d.fd] {
+		w.termSeen[d.fd] = true
+		w.checkTerminal(fr, d.fd)
+	}
+	pts := w.walkNode(d.fd.Body, fr)
+	delete(w.inprog, k)
+	w.summ[k] = pts
+	return pts
+}
+
+// checkTerminal: a plain `errCh <- …` statement must be followed by `return` (or end the function)
+func (w *world) checkTerminal(fr *frame, fd *ast.FuncDecl) {
 	var checkBlock func(list []ast.Stmt, tailReturns bool)
-	checkStmt := func(s ast.Stmt, nextReturns bool) {}
+	var checkStmt func(s ast.Stmt, nextReturns bool)
 	checkBlock = func(list []ast.Stmt, tailReturns bool) {
 		for i, s := range list {
 			next := tailReturns
@@ -337,8 +1024,8 @@ func (a *analysis) walk(fd *ast.FuncDecl, depth int, seen map[string]bool) []Poi
 		switch x := s.(type) {
 		case *ast.SendStmt:
 			if chanName(x.Chan) == "errCh" && !nextReturns {
-				a.terminal = false
-				a.notes = append(a.notes, fmt.Sprintf("%s:%d: error send not followed by return", fname, a.fset.Position(x.Pos()).Line))
+				w.terminal = false
+				w.notes = append(w.notes, fmt.Sprintf("%s: error send not followed by return", w.rel(x.Pos())))
 			}
 		case *ast.BlockStmt:
 			checkBlock(x.List, nextReturns)
@@ -359,103 +1046,268 @@ func (a *analysis) walk(fd *ast.FuncDecl, depth int, seen map[string]bool) []Poi
 			for _, c := range x.Body.List {
 				checkBlock(c.(*ast.CaseClause).Body, nextReturns)
 			}
+		case *ast.TypeSwitchStmt:
+			for _, c := range x.Body.List {
+				checkBlock(c.(*ast.CaseClause).Body, nextReturns)
+			}
 		case *ast.LabeledStmt:
 			checkStmt(x.Stmt, nextReturns)
 		}
 	}
 	checkBlock(fd.Body.List, true)
+}
 
-	ast.Inspect(fd.Body, func(n ast.Node) bool {
+// ctxReturn: does the loop body contain (outside nested function literals and nested loops' own business) a select with a
+// case on the node context whose body leaves the function (or the loop by a labelled break / goto)?
+func (w *world) ctxReturn(fr *frame, body *ast.BlockStmt) bool {
+	found := false
+	ast.Inspect(body, func(n ast.Node) bool {
+		if _, isLit := n.(*ast.FuncLit); isLit {
+			return false
+		}
+		sel, ok := n.(*ast.SelectStmt)
+		if !ok {
+			return true
+		}
+		for _, c := range sel.Body.List {
+			cc := c.(*ast.CommClause)
+			if cc.Comm == nil {
+				continue
+			}
+			if u := recvOf(cc.Comm); u != nil && w.isCtxDone(fr, u) && len(cc.Body) > 0 {
+				switch l := cc.Body[len(cc.Body)-1].(type) {
+				case *ast.ReturnStmt:
+					found = true
+				case *ast.BranchStmt:
+					if l.Label != nil && (l.Tok == token.BREAK || l.Tok == token.GOTO) {
+						found = true
+					}
+				}
+			}
+		}
+		return true
+	})
+	return found
+}
+
+// walkNode lists the blocking points under n in source order; calls into the repository are followed.
+func (w *world) walkNode(n ast.Node, fr *frame) []Point {
+	var pts []Point
+	info := fr.pkg.info
+	skip := map[ast.Node]bool{}
+	callpos := map[ast.Expr]bool{}
+	handled := map[*ast.Ident]bool{}
+	add := func(n ast.Node, kind int, cname string, flag, poll bool) {
+		pos := w.fset.Position(n.Pos())
+		p := Point{Kind: kind, Flag: flag, Poll: poll, Fn: fr.fnName, Line: pos.Line, Src: w.text(n), CName: cname,
+			Pos: fmt.Sprintf("%s:%d:%d", pos.Filename, pos.Line, pos.Column)}
+		pts = append(pts, p)
+	}
+	miss := func(n ast.Node, what string) {
+		w.notFollowed[[2]string{fr.caller, fmt.Sprintf("%s at %s: %s", what, w.rel(n.Pos()), w.text(n))}] = true
+	}
+	followFn := func(call *ast.CallExpr, fn *types.Func, paramsOK bool) {
+		var ad []bool
+		if call != nil {
+			for _, a := range call.Args {
+				t := info.TypeOf(a)
+				ad = append(ad, t != nil && isContext(t) && w.derivedExpr(fr, a))
+			}
+		}
+		pts = append(pts, w.follow(fn, ad, paramsOK, fr.caller)...)
+	}
+	// a func value used as a value (argument, assignment, method value): the repository function behind it is followed here
+	valueRef := func(e ast.Expr) {
+		if !isFuncType(info.TypeOf(e)) {
+			return
+		}
+		if fn, ok := w.staticCallee(info, e).(*types.Func); ok {
+			if sig, _ := fn.Type().(*types.Signature); sig != nil && sig.Recv() != nil && types.IsInterface(sig.Recv().Type()) {
+				if isRepoPkg(fn.Pkg()) {
+					if s, ok := unparen(e).(*ast.SelectorExpr); ok {
+						w.boundary[[3]string{fr.caller, w.recvTypeName(info, s), fn.Name()}] = true
+					}
+				}
+				return
+			}
+			if isRepoPkg(fn.Pkg()) {
+				followFn(nil, fn.Origin(), false)
+			} else if fn.Pkg() != nil {
+				w.external[fn.Pkg().Path()] = true
+			}
+		}
+	}
+	ast.Inspect(n, func(n ast.Node) bool {
 		if n == nil || skip[n] {
 			return false
 		}
 		switch x := n.(type) {
+		case *ast.GoStmt:
+			w.goStmts[fmt.Sprintf("%s: %s", w.rel(x.Pos()), w.text(x))] = true
+		case *ast.ForStmt:
+			if x.Init == nil && x.Post == nil && !w.loopSeen[x] {
+				w.loopSeen[x] = true
+				w.checkLoop(fr, x, x.Body)
+			}
+		case *ast.RangeStmt:
+			if t := info.TypeOf(x.X); t != nil {
+				if _, isChan := t.Underlying().(*types.Chan); isChan {
+					add(x, 3, chanName(x.X), false, false)
+					if !w.loopSeen[x] {
+						w.loopSeen[x] = true
+						w.checkLoop(fr, x, x.Body)
+					}
+				}
+			}
 		case *ast.SelectStmt:
+			if len(x.Body.List) == 0 {
+				add(x, 3, "<never>", false, false)
+				return true
+			}
 			hasCtx, hasDefault := false, false
 			for _, c := range x.Body.List {
 				cc := c.(*ast.CommClause)
 				if cc.Comm == nil {
 					hasDefault = true
-				} else if u := recvOf(cc.Comm); u != nil && isCtxDone(u) {
+				} else if u := recvOf(cc.Comm); u != nil && w.isCtxDone(fr, u) {
 					hasCtx = true
 				}
 			}
 			guarded := hasCtx || hasDefault
 			if hasCtx {
-				add(x, 0, "", true)
+				add(x, 0, "", true, hasDefault)
 			}
 			for _, c := range x.Body.List {
 				cc := c.(*ast.CommClause)
 				if cc.Comm == nil {
 					continue
 				}
-				skip[cc.Comm] = true
 				if u := recvOf(cc.Comm); u != nil {
-					if !isCtxDone(u) {
-						add(cc.Comm, 3, chanName(u.X), guarded)
+					skip[u] = true
+					if !w.isCtxDone(fr, u) {
+						add(cc.Comm, 3, chanName(u.X), guarded, hasDefault)
 					}
 				} else if s, ok := cc.Comm.(*ast.SendStmt); ok {
-					add(cc.Comm, 2, chanName(s.Chan), guarded)
+					skip[cc.Comm] = true
+					add(cc.Comm, 2, chanName(s.Chan), guarded, hasDefault)
+					// the value sent may contain calls
+					pts = append(pts, w.walkNode(s.Value, fr)...)
 				}
 			}
 		case *ast.SendStmt:
 			cn := chanName(x.Chan)
 			if cn == "errCh" {
-				add(x, 4, cn, false)
+				add(x, 4, cn, false, false)
 			} else {
-				add(x, 2, cn, false)
+				add(x, 2, cn, false, false)
 			}
 		case *ast.UnaryExpr:
 			if x.Op == token.ARROW {
-				if isCtxDone(x) {
-					add(x, 0, "", true)
+				if w.isCtxDone(fr, x) {
+					add(x, 0, "", true, false)
 				} else {
-					add(x, 3, chanName(x.X), false)
+					add(x, 3, chanName(x.X), false, false)
+				}
+			}
+		case *ast.SelectorExpr:
+			handled[x.Sel] = true
+			if !callpos[x] {
+				valueRef(x)
+			}
+		case *ast.Ident:
+			if !handled[x] && !callpos[x] {
+				if _, isFn := info.Uses[x].(*types.Func); isFn {
+					valueRef(x)
 				}
 			}
 		case *ast.CallExpr:
-			if s, ok := x.Fun.(*ast.SelectorExpr); ok {
-				if id, ok := s.X.(*ast.Ident); ok && id.Name == "time" && s.Sel.Name == "Sleep" && len(x.Args) == 1 {
-					add(x, 1, "", boundedSleepArg(x.Args[0]))
+			fun := unparen(x.Fun)
+			if tv, ok := info.Types[fun]; ok && tv.IsType() {
+				return true // conversion
+			}
+			callpos[fun] = true
+			if ix, ok := fun.(*ast.IndexExpr); ok {
+				callpos[unparen(ix.X)] = true
+			}
+			if ix, ok := fun.(*ast.IndexListExpr); ok {
+				callpos[unparen(ix.X)] = true
+			}
+			if _, ok := fun.(*ast.FuncLit); ok {
+				return true // called in place: the body is walked in place
+			}
+			// func-valued arguments: their origin must be known
+			for _, a := range x.Args {
+				if isFuncType(info.TypeOf(a)) {
+					targets, _, ok := w.resolveFuncValue(fr, a, 0, false)
+					if !ok {
+						miss(a, "func-valued argument of unknown origin")
+					}
+					for _, t := range targets { // the callee may call it: its points belong to this walk
+						pts = append(pts, w.followTarget(t, fr.caller)...)
+					}
+				}
+			}
+			switch o := w.staticCallee(info, fun).(type) {
+			case *types.Builtin, *types.TypeName, nil:
+				if o == nil {
+					miss(x, "dynamic call")
+				}
+			case *types.Func:
+				sig, _ := o.Type().(*types.Signature)
+				if sig != nil && sig.Recv() != nil && types.IsInterface(sig.Recv().Type()) {
+					if isRepoPkg(o.Pkg()) {
+						iface := "?"
+						if s, ok := fun.(*ast.SelectorExpr); ok {
+							iface = w.recvTypeName(info, s)
+						}
+						w.boundary[[3]string{fr.caller, iface, o.Name()}] = true
+					} else if o.FullName() == "(sync.Locker).Lock" {
+						// a mutex behind the Locker interface: which one is not known, so it is not known to be free
+						w.mutexFree["sync.Locker (dynamic)"] = false
+						add(x, 5, "sync.Locker (dynamic)", false, false)
+					} else if o.Pkg() != nil {
+						w.external[o.Pkg().Path()] = true
+					}
 					return true
 				}
-			}
-			callee := ""
-			switch f := x.Fun.(type) {
-			case *ast.Ident:
-				callee = f.Name
-			case *ast.IndexExpr:
-				if id, ok := f.X.(*ast.Ident); ok {
-					callee = id.Name
+				if isRepoPkg(o.Pkg()) {
+					followFn(x, o.Origin(), true)
+					return true
 				}
-			case *ast.SelectorExpr:
-				if id, ok := f.X.(*ast.Ident); ok && id.Name == recvName && recvName != "" {
-					callee = f.Sel.Name
+				fname := o.Origin().FullName()
+				switch {
+				case fname == "time.Sleep" && len(x.Args) == 1:
+					add(x, 1, "", w.boundedSleep(fr, x.Args[0]), false)
+				case lockFns[fname]:
+					if s, ok := fun.(*ast.SelectorExpr); ok {
+						add(x, 5, w.mutexKey(fr, s.X), true, false)
+					}
+				case waitFns[fname]:
+					add(x, 6, fname, false, false)
+				case fname == errgroupWait:
+					// the functions handed to g.Go are walked in place (literals) or followed (declared functions); the
+					// join is as good as they are - unless one of them is of unknown origin
+					add(x, 6, fname, w.errgroupInlined(fr, fun), false)
+				default:
+					if o.Pkg() != nil {
+						w.external[o.Pkg().Path()] = true
+					}
 				}
-			}
-			if al, ok := a.alias[callee]; ok {
-				callee = al
-			}
-			if callee != "" && depth < 4 && !seen[callee] {
-				if cands := a.funcs[callee]; len(cands) > 0 {
-					target := cands[0]
-					for _, c := range cands {
-						if c.Recv != nil && len(c.Recv.List) == 1 {
-							t := c.Recv.List[0].Type
-							if s, ok := t.(*ast.StarExpr); ok {
-								t = s.X
-							}
-							if id, ok := t.(*ast.Ident); ok && id.Name == recvType {
-								target = c
-							}
-						}
+			case *types.Var:
+				targets, ext, ok := w.resolveFuncValue(fr, fun, 0, false)
+				if !ok {
+					miss(x, "call through a func value of unknown origin")
+					return true
+				}
+				if ext {
+					w.external["<func value obtained from outside the repository>"] = true
+				}
+				for _, t := range targets {
+					if t.fn != nil {
+						followFn(x, t.fn, true)
+					} else {
+						pts = append(pts, w.followTarget(t, fr.caller)...)
 					}
-					seen2 := map[string]bool{callee: true}
-					for k := range seen {
-						seen2[k] = true
-					}
-					// arguments first (source order is kept approximately)
-					pts = append(pts, a.walk(target, depth+1, seen2)...)
 				}
 			}
 		}
@@ -464,6 +1316,226 @@ func (a *analysis) walk(fd *ast.FuncDecl, depth int, seen map[string]bool) []Poi
 	return pts
 }
 
+// errgroupInlined: every g.Go(f) of the same group variable in the enclosing declaration has an f of known origin.
+func (w *world) errgroupInlined(fr *frame, waitFun ast.Expr) bool {
+	s, ok := waitFun.(*ast.SelectorExpr)
+	if !ok || fr.body == nil {
+		return false
+	}
+	gid, ok := unparen(s.X).(*ast.Ident)
+	if !ok {
+		return false
+	}
+	info := fr.pkg.info
+	g := info.Uses[gid]
+	if g == nil || g.Parent() == nil || g.Parent() == g.Pkg().Scope() {
+		return false
+	}
+	good, n := true, 0
+	ast.Inspect(fr.body, func(n2 ast.Node) bool {
+		c, ok := n2.(*ast.CallExpr)
+		if !ok {
+			return true
+		}
+		if fn, ok := w.staticCallee(info, c.Fun).(*types.Func); ok && fn.FullName() == errgroupGo {
+			if cs, ok := unparen(c.Fun).(*ast.SelectorExpr); ok {
+				if id, ok := unparen(cs.X).(*ast.Ident); ok && info.Uses[id] == g && len(c.Args) == 1 {
+					n++
+					if _, _, ok := w.resolveFuncValue(fr, c.Args[0], 0, false); !ok {
+						good = false
+					}
+				}
+			}
+		}
+		return true
+	})
+	return good && n > 0
+}
+
+// checkLoop: a `for {…}` / `for cond {…}` / `for range ch {…}` whose body (calls followed) can park the goroutine must
+// leave the function at a case on the node context.
+func (w *world) checkLoop(fr *frame, loop ast.Node, body *ast.BlockStmt) {
+	pts := w.walkNode(body, fr)
+	_, isRange := loop.(*ast.RangeStmt)
+	park := isRange
+	for _, p := range pts {
+		if w.parking(p) {
+			park = true
+		}
+	}
+	if park && !w.ctxReturn(fr, body) {
+		w.headed = false
+		w.notes = append(w.notes, fmt.Sprintf("%s (%s): loop that can park its goroutine has no `case <-ctx.Done(): …return`", w.rel(loop.Pos()), fr.fnName))
+	}
+}
+
+// ------------------------------------------------------------------------------------------------ mutex regions
+
+// lockRegions finds, in every function of the repository's loaded packages, the statements executed while `key` is held.
+func (w *world) lockRegions(key string) (regions [][]ast.Stmt, frames []*frame, where []string) {
+	for _, path := range w.order {
+		pi := w.pkgs[path]
+		for _, f := range pi.files {
+			for _, d := range f.Decls {
+				fd, ok := d.(*ast.FuncDecl)
+				if !ok || fd.Body == nil {
+					continue
+				}
+				fn, _ := pi.info.Defs[fd.Name].(*types.Func)
+				params := map[types.Object]bool{}
+				pd := map[types.Object]bool{}
+				if fd.Type.Params != nil {
+					for _, fl := range fd.Type.Params.List {
+						for _, nm := range fl.Names {
+							if o := pi.info.Defs[nm]; o != nil {
+								params[o] = true
+								if isContext(o.Type()) {
+									pd[o] = true
+								}
+							}
+						}
+					}
+				}
+				fr := &frame{pkg: pi, fd: fd, encl: fn, fnName: qualName(fn), caller: qualName(fn) + " [critical section of " + key + "]", body: fd.Body, params: params, paramsOK: true}
+				derivedDone := false
+				var scan func(list []ast.Stmt)
+				isCallOn := func(s ast.Stmt, set map[string]bool) bool {
+					es, ok := s.(*ast.ExprStmt)
+					if !ok {
+						return false
+					}
+					c, ok := es.X.(*ast.CallExpr)
+					if !ok {
+						return false
+					}
+					fn, ok := w.staticCallee(pi.info, c.Fun).(*types.Func)
+					if !ok || !set[fn.Origin().FullName()] {
+						return false
+					}
+					sel, ok := unparen(c.Fun).(*ast.SelectorExpr)
+					return ok && w.mutexKey(fr, sel.X) == key
+				}
+				scan = func(list []ast.Stmt) {
+					for i, s := range list {
+						if isCallOn(s, lockFns) {
+							j := len(list)
+							for k := i + 1; k < len(list); k++ {
+								if isCallOn(list[k], unlockFns) {
+									j = k
+									break
+								}
+							}
+							if !derivedDone {
+								w.computeDerived(fr, fd.Body, pd)
+								derivedDone = true
+							}
+							regions = append(regions, list[i+1:j])
+							frames = append(frames, fr)
+							where = append(where, fmt.Sprintf("%s %s", w.rel(s.Pos()), qualName(fn)))
+						}
+						ast.Inspect(s, func(n ast.Node) bool {
+							switch b := n.(type) {
+							case *ast.BlockStmt:
+								scan(b.List)
+								return false
+							case *ast.CaseClause:
+								scan(b.Body)
+								return false
+							case *ast.CommClause:
+								scan(b.Body)
+								return false
+							}
+							return true
+						})
+					}
+				}
+				scan(fd.Body.List)
+			}
+		}
+	}
+	return
+}
+
+// mutexFixpoint: free[m] = no critical section of m contains an operation that can park the holder (nested locks of
+// non-free mutexes included).
+func (w *world) mutexFixpoint(keys []string) {
+	all := map[string]bool{}
+	var queue []string
+	for _, k := range keys {
+		if !all[k] {
+			all[k] = true
+			queue = append(queue, k)
+			w.mutexFree[k] = true
+		}
+	}
+	type reg struct {
+		pts   []Point
+		where string
+	}
+	regs := map[string][]reg{}
+	for len(queue) > 0 {
+		k := queue[0]
+		queue = queue[1:]
+		rs, frs, wh := w.lockRegions(k)
+		for i, r := range rs {
+			var pts []Point
+			for _, s := range r {
+				pts = append(pts, w.walkNode(s, frs[i])...)
+			}
+			regs[k] = append(regs[k], reg{pts, wh[i]})
+			for _, p := range pts {
+				if p.Kind == 5 && !all[p.CName] { // nested mutex: analysed too
+					all[p.CName] = true
+					w.mutexFree[p.CName] = true
+					queue = append(queue, p.CName)
+				}
+			}
+		}
+	}
+	for changed := true; changed; {
+		changed = false
+		for k, rs := range regs {
+			if !w.mutexFree[k] {
+				continue
+			}
+			for _, r := range rs {
+				for _, p := range r.pts {
+					if w.parking(p) {
+						w.mutexFree[k] = false
+						changed = true
+					}
+				}
+			}
+		}
+	}
+	for k, rs := range regs {
+		for _, r := range rs {
+			var bad []string
+			for _, p := range r.pts {
+				if w.parking(p) {
+					bad = append(bad, fmt.Sprintf("%s %s", w.rel2(p), p.Src))
+				}
+			}
+			w.mutexDoc[k] = append(w.mutexDoc[k], fmt.Sprintf("%s: %d operations that can park the holder%s", r.where, len(bad), func() string {
+				if len(bad) == 0 {
+					return ""
+				}
+				return " [" + strings.Join(bad, "; ") + "]"
+			}()))
+		}
+	}
+}
+
+func (w *world) rel2(p Point) string {
+	s := strings.TrimPrefix(p.Pos, w.root+"/")
+	if i := strings.LastIndexByte(s, ':'); i > 0 {
+		s = s[:i]
+	}
+	return s
+}
+
+// ------------------------------------------------------------------------------------------------ table
+
 type table struct {
 	Workers   map[int][]Point
 	Names     map[int]string
@@ -471,10 +1543,7 @@ type table struct {
 	CapErr    int
 	CapHdr    int
 	CapData   int
-	Headed    bool
-	Terminal  bool
 	RunOK     bool
-	Notes     []string
 }
 
 func constInt(files []*ast.File, name string) int {
@@ -550,45 +1619,16 @@ func makeCap(files []*ast.File, name string) int {
 	return res
 }
 
-func analyse() (*table, error) {
-	root := repoRoot()
-	ov := overlayMap()
-	fset := token.NewFileSet()
-	bfiles, err := parseDir(fset, filepath.Join(root, "block"), ov)
+func analyse() (*world, *table, error) {
+	w, err := load()
 	if err != nil {
-		return nil, err
+		return nil, nil, err
 	}
-	nfiles, err := parseDir(fset, filepath.Join(root, "node"), ov)
-	if err != nil {
-		return nil, err
-	}
-	a := &analysis{fset: fset, funcs: map[string][]*ast.FuncDecl{}, alias: map[string]string{}, locals: map[string]int{}, headed: true, terminal: true}
-	for _, f := range bfiles {
-		for _, d := range f.Decls {
-			if fd, ok := d.(*ast.FuncDecl); ok {
-				a.funcs[fd.Name.Name] = append(a.funcs[fd.Name.Name], fd)
-			}
-		}
-	}
-	// func-typed fields assigned a method of the package (m.publishBlock = m.publishBlockInternal)
-	for _, f := range bfiles {
-		ast.Inspect(f, func(n ast.Node) bool {
-			as, ok := n.(*ast.AssignStmt)
-			if !ok || len(as.Lhs) != 1 || len(as.Rhs) != 1 {
-				return true
-			}
-			l, ok1 := as.Lhs[0].(*ast.SelectorExpr)
-			r, ok2 := as.Rhs[0].(*ast.SelectorExpr)
-			if ok1 && ok2 && len(a.funcs[l.Sel.Name]) == 0 && len(a.funcs[r.Sel.Name]) > 0 {
-				a.alias[l.Sel.Name] = r.Sel.Name
-			}
-			return true
-		})
-	}
-	t := &table{Workers: map[int][]Point{}, Names: map[int]string{}, RunOK: false}
+	bp, np := w.pkgs[repoMod+"/block"], w.pkgs[repoMod+"/node"]
+	t := &table{Workers: map[int][]Point{}, Names: map[int]string{}}
 	// node/full.go: Run
 	var run *ast.FuncDecl
-	for _, f := range nfiles {
+	for _, f := range np.files {
 		for _, d := range f.Decls {
 			if fd, ok := d.(*ast.FuncDecl); ok && fd.Name.Name == "Run" && fd.Recv != nil {
 				if s, ok := fd.Recv.List[0].Type.(*ast.StarExpr); ok {
@@ -600,13 +1640,13 @@ func analyse() (*table, error) {
 		}
 	}
 	if run == nil {
-		return nil, fmt.Errorf("FullNode.Run not found in %s/node", root)
+		return nil, nil, fmt.Errorf("FullNode.Run not found in %s/node", w.root)
 	}
 	t.CapErr = makeCap([]*ast.File{{Decls: []ast.Decl{run}}}, "errCh")
-	t.CapHdr = makeCap(bfiles, "headerInCh")
-	t.CapData = makeCap(bfiles, "dataInCh")
-	spawned := func(b *ast.BlockStmt) []string {
-		var out []string
+	t.CapHdr = makeCap(bp.files, "headerInCh")
+	t.CapData = makeCap(bp.files, "dataInCh")
+	spawned := func(b *ast.BlockStmt) []*types.Func {
+		var out []*types.Func
 		ast.Inspect(b, func(n ast.Node) bool {
 			c, ok := n.(*ast.CallExpr)
 			if !ok {
@@ -617,8 +1657,8 @@ func analyse() (*table, error) {
 			}
 			ast.Inspect(c.Args[0], func(k ast.Node) bool {
 				if cc, ok := k.(*ast.CallExpr); ok {
-					if s, ok := cc.Fun.(*ast.SelectorExpr); ok {
-						out = append(out, s.Sel.Name)
+					if fn, ok := w.staticCallee(np.info, cc.Fun).(*types.Func); ok && isRepoPkg(fn.Pkg()) {
+						out = append(out, fn.Origin())
 						return false
 					}
 				}
@@ -628,23 +1668,23 @@ func analyse() (*table, error) {
 		})
 		return out
 	}
-	var aggNames, fullNames []string
+	var aggFns, fullFns []*types.Func
 	ast.Inspect(run.Body, func(n ast.Node) bool {
 		is, ok := n.(*ast.IfStmt)
 		if !ok {
 			return true
 		}
 		if s, ok := is.Cond.(*ast.SelectorExpr); ok && s.Sel.Name == "Aggregator" {
-			aggNames = spawned(is.Body)
+			aggFns = spawned(is.Body)
 			if eb, ok := is.Else.(*ast.BlockStmt); ok {
-				fullNames = spawned(eb)
+				fullFns = spawned(eb)
 			}
 			return false
 		}
 		return true
 	})
-	if len(aggNames) == 0 || len(fullNames) == 0 {
-		return nil, fmt.Errorf("could not read the worker sets of FullNode.Run")
+	if len(aggFns) == 0 || len(fullFns) == 0 {
+		return nil, nil, fmt.Errorf("could not read the worker sets of FullNode.Run")
 	}
 	// Run's own protocol: one select with `<-errCh` and `<-parentCtx.Done()`, then wg.Wait(); errCh read nowhere else
 	errReads, selOK, waitAfter := 0, false, false
@@ -659,8 +1699,12 @@ func analyse() (*table, error) {
 					continue
 				}
 				if u := recvOf(cc.Comm); u != nil {
-					if isCtxDone(u) {
-						hasParent = true
+					if c, ok := u.X.(*ast.CallExpr); ok {
+						if s, ok := c.Fun.(*ast.SelectorExpr); ok && s.Sel.Name == "Done" {
+							if t := np.info.TypeOf(s.X); t != nil && isContext(t) {
+								hasParent = true
+							}
+						}
 					} else if chanName(u.X) == "errCh" {
 						hasErr = true
 					}
@@ -675,7 +1719,7 @@ func analyse() (*table, error) {
 				errReads++
 			}
 		case *ast.CallExpr:
-			if s, ok := x.Fun.(*ast.SelectorExpr); ok && s.Sel.Name == "Wait" && selOK && x.Pos() > selPos {
+			if fn, ok := w.staticCallee(np.info, x.Fun).(*types.Func); ok && fn.FullName() == "(*sync.WaitGroup).Wait" && selOK && x.Pos() > selPos {
 				waitAfter = true
 			}
 		}
@@ -683,63 +1727,92 @@ func analyse() (*table, error) {
 	})
 	t.RunOK = selOK && waitAfter && errReads == 1
 	if !t.RunOK {
-		a.notes = append(a.notes, fmt.Sprintf("Run protocol: select(errCh,parent)=%v wg.Wait after=%v reads of errCh=%d", selOK, waitAfter, errReads))
+		w.notes = append(w.notes, fmt.Sprintf("Run protocol: select(errCh,parent)=%v wg.Wait after=%v reads of errCh=%d", selOK, waitAfter, errReads))
 	}
 	unknown := 90
-	code := func(name string) int {
-		if c, ok := loopCodes[name]; ok {
+	fnOf := map[int]*types.Func{}
+	code := func(fn *types.Func) int {
+		q := qualName(fn) // block.Manager.AggregationLoop
+		q = strings.TrimPrefix(q, "block.")
+		if c, ok := loopCodes[q]; ok {
+			t.Names[c] = strings.TrimPrefix(q, "Manager.")
+			fnOf[c] = fn
 			return c
 		}
 		unknown++
+		t.Names[unknown] = q
+		fnOf[unknown] = fn
 		return unknown
 	}
-	for _, nm := range aggNames {
-		c := code(nm)
-		t.Agg = append(t.Agg, c)
-		t.Names[c] = nm
+	for _, fn := range aggFns {
+		t.Agg = append(t.Agg, code(fn))
 	}
-	for _, nm := range fullNames {
-		c := code(nm)
-		t.Full = append(t.Full, c)
-		t.Names[c] = nm
+	for _, fn := range fullFns {
+		t.Full = append(t.Full, code(fn))
 	}
 	var order []int
 	for c := range t.Names {
 		order = append(order, c)
 	}
 	sort.Ints(order)
+	var mutexKeys []string
 	for _, c := range order {
-		nm := t.Names[c]
-		cands := a.funcs[nm]
-		if len(cands) == 0 {
-			return nil, fmt.Errorf("loop function %s not found in package block", nm)
+		fn := fnOf[c]
+		sig := fn.Type().(*types.Signature)
+		ad := make([]bool, sig.Params().Len())
+		for i := range ad {
+			ad[i] = isContext(sig.Params().At(i).Type()) // Run hands the node context to every worker
 		}
-		fd := cands[0]
-		if nm == "Start" {
-			for _, cd := range cands {
-				if cd.Recv != nil {
-					if s, ok := cd.Recv.List[0].Type.(*ast.StarExpr); ok {
-						if id, ok := s.X.(*ast.Ident); ok && id.Name == "Reaper" {
-							fd = cd
-						}
-					}
-				}
+		raw := w.follow(fn, ad, false, "FullNode.Run")
+		seen := map[string]bool{}
+		var pts []Point
+		for _, p := range raw {
+			k := fmt.Sprintf("%s/%d/%s", p.Pos, p.Kind, p.CName)
+			if seen[k] {
+				continue
 			}
-			t.Names[c] = "Reaper.Start"
+			seen[k] = true
+			pts = append(pts, p)
+			if p.Kind == 5 {
+				mutexKeys = append(mutexKeys, p.CName)
+			}
 		}
-		t.Workers[c] = a.walk(fd, 0, map[string]bool{nm: true})
+		t.Workers[c] = pts
 	}
-	t.Headed, t.Terminal, t.Notes = a.headed, a.terminal, a.notes
-	return t, nil
+	sort.Strings(mutexKeys)
+	// loop checks ran with every mutex considered free; decide the mutexes, then re-run the loop checks if one is not
+	w.mutexFixpoint(mutexKeys)
+	anyHeld := false
+	for _, free := range w.mutexFree {
+		if !free {
+			anyHeld = true
+		}
+	}
+	if anyHeld {
+		old := w.loopSeen
+		w.loopSeen = map[ast.Node]bool{}
+		w.summ = map[fkey][]Point{}
+		for _, c := range order {
+			fn := fnOf[c]
+			sig := fn.Type().(*types.Signature)
+			ad := make([]bool, sig.Params().Len())
+			for i := range ad {
+				ad[i] = isContext(sig.Params().At(i).Type())
+			}
+			w.follow(fn, ad, false, "FullNode.Run")
+		}
+		_ = old
+	}
+	return w, t, nil
 }
 
 func Facts() (string, error) {
-	t, err := analyse()
+	w, t, err := analyse()
 	if err != nil {
 		return "", err
 	}
 	var sb strings.Builder
-	w := func(f string, a ...any) { fmt.Fprintf(&sb, f, a...) }
+	pf := func(f string, a ...any) { fmt.Fprintf(&sb, f, a...) }
 	nats := func(xs []int) string {
 		p := make([]string, len(xs))
 		for i, x := range xs {
@@ -747,52 +1820,152 @@ func Facts() (string, error) {
 		}
 		return "[" + strings.Join(p, ", ") + "]"
 	}
-	w("/-- capacity of `errCh` in FullNode.Run, of headerInCh / dataInCh in NewManager -/\n")
-	w("def capErrCh : Nat := %d\ndef capHeaderInCh : Nat := %d\ndef capDataInCh : Nat := %d\n", max(t.CapErr, 0), max(t.CapHdr, 0), max(t.CapData, 0))
-	w("/-- worker sets of FullNode.Run (loop codes: 0 AggregationLoop 1 Reaper.Start 2 HeaderSubmissionLoop 3 DataSubmissionLoop\n 4 DAIncluderLoop 5 RetrieveLoop 6 HeaderStoreRetrieveLoop 7 DataStoreRetrieveLoop 8 SyncLoop, >90 unknown) -/\n")
-	w("def aggregatorWorkers : List Nat := %s\ndef fullWorkers : List Nat := %s\n", nats(t.Agg), nats(t.Full))
+	strs := func(xs []string) string {
+		p := make([]string, len(xs))
+		for i, x := range xs {
+			p[i] = strconv.Quote(x)
+		}
+		return "[" + strings.Join(p, ",\n  ") + "]"
+	}
+	pairs := func(m map[[2]string]bool) string {
+		var ks [][2]string
+		for k := range m {
+			ks = append(ks, k)
+		}
+		sort.Slice(ks, func(i, j int) bool { return ks[i][0]+"\x00"+ks[i][1] < ks[j][0]+"\x00"+ks[j][1] })
+		p := make([]string, len(ks))
+		for i, k := range ks {
+			p[i] = fmt.Sprintf("(%q, %q)", k[0], k[1])
+		}
+		return "[" + strings.Join(p, ",\n  ") + "]"
+	}
+	pf("/-- capacity of `errCh` in FullNode.Run, of headerInCh / dataInCh in NewManager -/\n")
+	pf("def capErrCh : Nat := %d\ndef capHeaderInCh : Nat := %d\ndef capDataInCh : Nat := %d\n", max(t.CapErr, 0), max(t.CapHdr, 0), max(t.CapData, 0))
+	pf("/-- worker sets of FullNode.Run (loop codes: 0 AggregationLoop 1 Reaper.Start 2 HeaderSubmissionLoop 3 DataSubmissionLoop\n 4 DAIncluderLoop 5 RetrieveLoop 6 HeaderStoreRetrieveLoop 7 DataStoreRetrieveLoop 8 SyncLoop, >90 unknown) -/\n")
+	pf("def aggregatorWorkers : List Nat := %s\ndef fullWorkers : List Nat := %s\n", nats(t.Agg), nats(t.Full))
 	var codes []int
 	for c := range t.Names {
 		codes = append(codes, c)
 	}
 	sort.Ints(codes)
-	w("def workerNames : List (Nat × String) := [")
+	pf("def workerNames : List (Nat × String) := [")
 	for i, c := range codes {
 		if i > 0 {
-			w(", ")
+			pf(", ")
 		}
-		w("(%d, %q)", c, t.Names[c])
+		pf("(%d, %q)", c, t.Names[c])
 	}
-	w("]\n")
-	w("/-- Run waits in one select on errCh and the parent context, reads errCh nowhere else, and joins with wg.Wait() -/\n")
-	w("def runProtocol : Bool := %s\n", hx.LeanBool(t.RunOK))
-	w("/-- every plain `errCh <- …` is followed by `return` -/\ndef errSendsTerminal : Bool := %s\n", hx.LeanBool(t.Terminal))
-	w("/-- every `for` without condition that contains a blocking operation has a `<-ctx.Done()` case -/\ndef loopsHeaded : Bool := %s\n", hx.LeanBool(t.Headed))
-	w("/-- blocking points: (loop code, kind, channel code, flag) - kind 0 ctxSelect, 1 sleep (flag = bounded by a configured\n interval), 2 send, 3 recv (flag = inside a select with a ctx.Done case or a default), 4 plain send on errCh.\n Channel codes: 0 errCh 1 headerInCh 2 dataInCh 3 headerStoreCh 4 dataStoreCh 5 retrieveCh 6 daIncluderCh 7 txNotifyCh\n 8 timer, >=100 local. -/\n")
-	w("def points : List (Nat × Nat × Nat × Bool) := [\n")
+	pf("]\n")
+	pf("/-- Run waits in one select on errCh and the parent context, reads errCh nowhere else, and joins with wg.Wait() -/\n")
+	pf("def runProtocol : Bool := %s\n", hx.LeanBool(t.RunOK))
+	pf("/-- every plain `errCh <- …` is followed by `return` -/\ndef errSendsTerminal : Bool := %s\n", hx.LeanBool(w.terminal))
+	pf("/-- every `for {…}`, `for cond {…}` and `for range ch {…}` reached from a loop whose body (calls followed) holds an\n operation that can park the goroutine has a `case <-ctx.Done(): … return` on the NODE context in its body -/\ndef loopsHeaded : Bool := %s\n", hx.LeanBool(w.headed))
+	// mutexes
+	var mkeys []string
+	for k := range w.mutexFree {
+		mkeys = append(mkeys, k)
+	}
+	sort.Strings(mkeys)
+	mid := map[string]int{}
+	allFree := true
+	pf("/-- mutexes locked by the loops (and those locked inside their critical sections): (code, name, no critical section of it\n anywhere in the repository's loaded packages contains an operation that can park the holder) -/\n")
+	pf("def mutexes : List (Nat × String × Bool) := [")
+	for i, k := range mkeys {
+		mid[k] = i
+		if i > 0 {
+			pf(", ")
+		}
+		pf("(%d, %q, %s)", i, k, hx.LeanBool(w.mutexFree[k]))
+		if !w.mutexFree[k] {
+			allFree = false
+		}
+	}
+	pf("]\n")
+	pf("def mutexRegionsNonBlocking : Bool := %s\n", hx.LeanBool(allFree))
+	var mdoc []string
+	for _, k := range mkeys {
+		ds := append([]string(nil), w.mutexDoc[k]...)
+		sort.Strings(ds)
+		for _, d := range ds {
+			mdoc = append(mdoc, k+" @ "+d)
+		}
+	}
+	pf("/-- the critical sections found (documentation) -/\ndef mutexRegionsDoc : List String := %s\n", strs(mdoc))
+	pf("/-- COMPLETENESS: calls met on the walks (loops and critical sections) that lead into the repository's own packages, or\n through func values, and could NOT be resolved and followed: (caller, what).  Spec.C13 requires `[]`. -/\n")
+	pf("def callsNotFollowed : List (String × String) := %s\n", pairs(w.notFollowed))
+	pf("/-- the declared boundary: calls of methods of interfaces DECLARED IN THE REPOSITORY (execution, sequencing, DA, store,\n broadcast, signer …) are not followed; (caller, interface.method) -/\n")
+	bc := map[[2]string]bool{}
+	bi := map[string]bool{}
+	for k := range w.boundary {
+		bc[[2]string{k[0], k[1] + "." + k[2]}] = true
+		bi[k[1]] = true
+	}
+	pf("def boundaryCalls : List (String × String) := %s\n", pairs(bc))
+	var bis []string
+	for k := range bi {
+		bis = append(bis, k)
+	}
+	sort.Strings(bis)
+	pf("def boundaryInterfaces : List String := %s\n", strs(bis))
+	var exts []string
+	for k := range w.external {
+		exts = append(exts, k)
+	}
+	sort.Strings(exts)
+	pf("/-- packages outside the repository that the walks call into (not followed; the blocking primitives of time / sync /\n errgroup are classified, everything else is taken to return) -/\n")
+	pf("def externalPkgs : List String := %s\n", strs(exts))
+	var gos []string
+	for k := range w.goStmts {
+		gos = append(gos, k)
+	}
+	sort.Strings(gos)
+	pf("/-- `go` statements met on the walks (their bodies are walked in place: conservative) -/\ndef goStmts : List String := %s\n", strs(gos))
+	pf("/-- blocking points: (loop code, kind, channel code, flag) - kind 0 ctxSelect (a select with a case on a context DERIVED\n from the node context), 1 sleep (flag = constant / configuration duration / min of those), 2 send, 3 recv (flag = inside a\n select with such a ctx case or a default), 4 plain send on errCh, 5 mutex Lock/RLock (channel = mutex code, flag = no\n critical section of it can park its holder), 6 join: WaitGroup.Wait / Cond.Wait (flag false) or errgroup Wait (flag = all\n joined functions are walked in place).  `for range ch` and `select {}` are plain receives.\n Channel codes: 0 errCh 1 headerInCh 2 dataInCh 3 headerStoreCh 4 dataStoreCh 5 retrieveCh 6 daIncluderCh 7 txNotifyCh\n 8 timer 9 never, >=100 local. -/\n")
+	pf("def points : List (Nat × Nat × Nat × Bool) := [\n")
 	first := true
 	var doc []string
+	locals := map[string]int{}
+	chanCode := func(name string) int {
+		if c, ok := chanCodes[name]; ok {
+			return c
+		}
+		if c, ok := locals[name]; ok {
+			return c
+		}
+		c := 100 + len(locals)
+		locals[name] = c
+		return c
+	}
 	for _, c := range codes {
 		for _, p := range t.Workers[c] {
 			if !first {
-				w(",\n")
+				pf(",\n")
 			}
 			first = false
-			w("  (%d, %d, %d, %s)", c, p.Kind, p.Chan, hx.LeanBool(p.Flag))
-			kind := []string{"ctxSelect", "sleep", "send", "recv", "errSend"}[p.Kind]
-			doc = append(doc, fmt.Sprintf("(%q, %q, %d, %q, %q, %s, %q)", t.Names[c], p.Fn, p.Line, kind, p.CName, hx.LeanBool(p.Flag), p.Src))
+			ch, flag := 0, p.Flag
+			switch p.Kind {
+			case 2, 3:
+				ch = chanCode(p.CName)
+			case 5:
+				ch = mid[p.CName]
+				flag = w.mutexFree[p.CName]
+			}
+			pf("  (%d, %d, %d, %s)", c, p.Kind, ch, hx.LeanBool(flag))
+			kind := []string{"ctxSelect", "sleep", "send", "recv", "errSend", "lock", "join"}[p.Kind]
+			doc = append(doc, fmt.Sprintf("(%q, %q, %q, %q, %q, %s, %q)", t.Names[c], p.Fn, w.rel2(p), kind, p.CName, hx.LeanBool(flag), p.Src))
 		}
 	}
-	w("]\n")
-	w("/-- the same points with their source location (documentation; the theorems use `points`):\n (loop, function, line, kind, channel, flag, source) -/\n")
-	w("def pointsDoc : List (String × String × Nat × String × String × Bool × String) := [\n  %s]\n", strings.Join(doc, ",\n  "))
-	w("def notes : List String := [")
-	for i, n := range t.Notes {
-		if i > 0 {
-			w(", ")
+	pf("]\n")
+	pf("/-- the same points with their source location (documentation; the theorems use `points`):\n (loop, function, file:line, kind, channel / mutex, flag, source) -/\n")
+	pf("def pointsDoc : List (String × String × String × String × String × Bool × String) := [\n  %s]\n", strings.Join(doc, ",\n  "))
+	var notes []string
+	seenNote := map[string]bool{}
+	for _, n := range w.notes {
+		if !seenNote[n] {
+			seenNote[n] = true
+			notes = append(notes, n)
 		}
-		w("%q", n)
 	}
-	w("]\n")
+	pf("def notes : List String := %s\n", strs(notes))
 	return sb.String(), nil
 }
